@@ -1,6 +1,7 @@
 package main
 
 import (
+	"math"
 	"math/rand"
 
 	comet "github.com/wizenheimer/comet"
@@ -88,9 +89,12 @@ func genC15(r *rand.Rand, t *Trace, thorough bool) {
 			ivf, _ := comet.NewIVFIndex(dim, nlist, metrics[mz])
 			pq, _ := comet.NewPQIndex(dim, metrics[mz], 8, 8)
 			ivfpq, _ := comet.NewIVFPQIndex(dim, metrics[mz], nlist, 8, 8)
+			// ... and a partition of about sqrt(n) cells, the usual choice for this many points
+			nlist2 := 49 + r.Intn(16)
+			ivf2, _ := comet.NewIVFIndex(dim, nlist2, metrics[mz])
 			// the nodes an index was trained on are then added to it -- the SAME node values (train, then
 			// add what you trained on), so that anything training or adding does to its arguments shows
-			for _, ix := range []comet.VectorIndex{ivf, pq, ivfpq} {
+			for _, ix := range []comet.VectorIndex{ivf, pq, ivfpq, ivf2} {
 				ns := trainNodes()
 				ix.Train(ns)
 				for i := range ns {
@@ -106,6 +110,8 @@ func genC15(r *rand.Rand, t *Trace, thorough bool) {
 				{"ivf_full", ivf, nlist, 1.0, 0, true},
 				{"pq", pq, 0, 0.5, 0.85, false},
 				{"ivfpq_full", ivfpq, nlist, 0.5, 0.85, false},
+				{"ivf_sqrt_many_cells", ivf2, int(math.Sqrt(float64(nlist2))), 0.4, 0, false},
+				{"ivf_full_many_cells", ivf2, nlist2, 1.0, 0, true},
 			}
 			for ci, cd := range cands {
 				sum := 0.0
